@@ -80,8 +80,12 @@ def entry_frame(I: Interp, finfo: FuncInfo, con: Contract, fnode):
         raise Refuse(f"*args in function under contract {finfo.key}")
     if a.kwarg:
         from .calls import PKwargs
-        fr.locals[a.kwarg.arg] = PKwargs({})  # verified for calls without extra keyword arguments
-        st.log.append(f"{finfo.key}: **{a.kwarg.arg} taken as empty")
+        declared = {}
+        for k, ann in (con.types or {}).items():
+            if k.startswith(a.kwarg.arg + "."):
+                declared[k.split(".", 1)[1]] = T.parse_ann(parse_expr(ann), finfo.module, owner)
+        fr.locals[a.kwarg.arg] = PKwargs({}, entry=declared)
+        st.log.append(f"{finfo.key}: **{a.kwarg.arg} taken as " + (f"exactly the keywords {sorted(declared)} (assumed present, typed by the contract)" if declared else "empty"))
     return fr
 
 
@@ -204,7 +208,14 @@ def run_path(I: Interp, finfo: FuncInfo, con: Contract):
         sf.locals["result"] = ret
         # goals are evaluated first so that small-scope assumptions made while grounding quantifiers (refutation
         # mode) and typing assumptions are in force for every obligation of the path
+        bounded_mode = bool(st.cfg.get("ground") or st.cfg.get("unroll"))
+        if bounded_mode and not st.consistent():
+            st.cfg["vacuous_exit"] = True  # (small-scope bounds added while grounding the ensures may legitimately exclude the path)
         goals = [(label, spec_bool(I, e, sf)) for label, e in con.ensures]
+        # vacuity guard: the path condition (with the typing assumptions the ensures clauses brought in) must still be
+        # satisfiable here, otherwise every postcondition of this path would be discharged from a contradiction
+        if not bounded_mode and not st.consistent():
+            st.cfg["vacuous_exit"] = True
         for label, g in goals:
             st.oblige("post", label, g)
         for nm in con.invariants:
@@ -462,6 +473,9 @@ def verify_fuc(key: str, cfg: dict) -> FucResult:
                                         "status": ob.status, "backend": ob.backend, "secs": round(ob.secs, 4),
                                         "detail": ob.detail, "model": ob.model,
                                         "smt_head": (str(ob.goal)[:300] if cfg.get("samples") else None)})
+            if pcfg.get("vacuous_exit") and all(o["status"] == "discharged" for o in res.obligations if o["path"] == st.path_id):
+                raise Refuse(f"path {st.path_id} reaches the function exit with a contradictory path condition although no obligation "
+                             f"failed on it: an engine assumption or assumed contract is inconsistent (vacuous proof refused)")
             for l in st.log:
                 if l not in res.log:
                     res.log.append(l)
